@@ -152,15 +152,18 @@ func renameRound(pkgs []*packages.Package, overlay map[string][]byte) (map[strin
 		}
 	}
 	sort.Strings(missing)
-	if len(missing) == 0 {
-		return nil, nil
-	}
 	// candidates: present but unknown to the inventory
 	var news []renameObj
 	for _, o := range inv {
 		if _, known := anchorSigs[o.key]; !known {
 			news = append(news, o)
 		}
+	}
+	if ed, lg := wrapperSwap(pkgs, overlay, inv, news); len(ed) > 0 {
+		return ed, lg
+	}
+	if len(missing) == 0 {
+		return nil, nil
 	}
 	kindOf := func(k string) string {
 		switch {
@@ -891,4 +894,109 @@ func splitTop(s string) []string {
 		}
 	}
 	return append(out, strings.TrimSpace(s[start:]))
+}
+
+// wrapperSwap: a function of the inventory whose signature is written
+// differently now, while a NEW function of the same package has exactly the
+// recorded signature and the old name's body is nothing but `return new(…)`,
+// became a wrapper around itself (`Get(link, accept, tolerated)` calling an
+// unexported `get(link, accept, tolerated, MaxRedirects)` that is the old
+// `Get`). The names are swapped back: the new function gets the inventory's
+// name, the wrapper a name of its own — it is then a helper unknown to the
+// rules and substituted at its call sites, which read as they did before.
+func wrapperSwap(pkgs []*packages.Package, overlay map[string][]byte, inv, news []renameObj) (map[string][]byte, []string) {
+	byObj := map[types.Object]string{}
+	var log []string
+	for _, o := range inv {
+		want, known := anchorSigs[o.key]
+		if !known || o.kind != "func" || o.sig == want {
+			continue
+		}
+		var cands []renameObj
+		for _, n := range news {
+			if n.kind == "func" && keyOwner(n.key) == keyOwner(o.key) && n.sig == want {
+				cands = append(cands, n)
+			}
+		}
+		if len(cands) != 1 {
+			continue
+		}
+		inner := cands[0]
+		// the body of the old name: a single return of a call of the candidate
+		okBody := false
+		for _, pkg := range pkgs {
+			if !isServitorPath(pkg.PkgPath) {
+				continue
+			}
+			for _, f := range pkg.Syntax {
+				for _, d := range f.Decls {
+					fd, ok := d.(*ast.FuncDecl)
+					if !ok || fd.Body == nil || pkg.TypesInfo.Defs[fd.Name] != o.obj || len(fd.Body.List) != 1 {
+						continue
+					}
+					ret, ok := fd.Body.List[0].(*ast.ReturnStmt)
+					if !ok || len(ret.Results) != 1 {
+						continue
+					}
+					call, ok := ret.Results[0].(*ast.CallExpr)
+					if !ok {
+						continue
+					}
+					if id, ok := call.Fun.(*ast.Ident); ok && pkg.TypesInfo.Uses[id] == inner.obj {
+						okBody = true
+					}
+				}
+			}
+		}
+		if !okBody {
+			continue
+		}
+		name := o.obj.Name()
+		wrapper := name + "Wrapped"
+		if o.obj.Pkg().Scope().Lookup(wrapper) != nil {
+			continue
+		}
+		byObj[inner.obj] = name
+		byObj[o.obj] = wrapper
+		log = append(log, fmt.Sprintf("wrapper undone: %s has the recorded signature of %s, which only calls it; names swapped back (the wrapper is %s now)", inner.key, o.key, wrapper))
+	}
+	if len(byObj) == 0 {
+		return nil, nil
+	}
+	edits := map[string][]srcEdit{}
+	seenEdit := map[string]bool{}
+	for _, pkg := range pkgs {
+		if !isServitorPath(pkg.PkgPath) {
+			continue
+		}
+		for _, f := range pkg.Syntax {
+			fname := pkg.Fset.File(f.Pos()).Name()
+			ast.Inspect(f, func(n ast.Node) bool {
+				id, ok := n.(*ast.Ident)
+				if !ok {
+					return true
+				}
+				obj := pkg.TypesInfo.Defs[id]
+				if obj == nil {
+					obj = pkg.TypesInfo.Uses[id]
+				}
+				if fn, ok := obj.(*types.Func); ok {
+					obj = fn.Origin()
+				}
+				if nm, ok := byObj[obj]; ok {
+					lo := pkg.Fset.Position(id.Pos()).Offset
+					if k := fmt.Sprintf("%s:%d", fname, lo); !seenEdit[k] {
+						seenEdit[k] = true
+						edits[fname] = append(edits[fname], srcEdit{lo, pkg.Fset.Position(id.End()).Offset, nm})
+					}
+				}
+				return true
+			})
+		}
+	}
+	out, ok := applyEdits(edits, overlay)
+	if !ok {
+		return nil, nil
+	}
+	return out, log
 }
